@@ -64,8 +64,12 @@ class Tracer:
             f = f.f_back
         return "?"
 
+    cur_stage = ""
+
     def emit(self, **ev):
         if self.on:
+            if ev.get("e") in ("new", "del", "rename"):
+                ev["stage"] = self.cur_stage
             self.events.append(ev)
 
     def flush_moves(self):
@@ -85,6 +89,9 @@ class Tracer:
         self._undo.append((obj, name, orig))
 
     def uninstall(self):
+        for u in getattr(self, "_extra_undo", []):
+            u()
+        self._extra_undo = []
         for obj, name, orig in reversed(self._undo):
             if orig is _MISSING:
                 try:
@@ -117,6 +124,8 @@ class Tracer:
             self._install_cells()
         if "stages" in groups:
             self._install_stages()
+        if "log" in groups:
+            self._install_log()
 
     def _install_atoms(self):
         import pdb2pqr.aa as aa
@@ -130,7 +139,8 @@ class Tracer:
             def add_atom(res, atom):
                 r = orig(res, atom)
                 n = tr.aid(atom)
-                tr.emit(e="new", a=n, p=tr.qpos(atom), name=atom.name, res=_rid(res), fr=tr.frame_name(2))
+                tr.emit(e="new", a=n, p=tr.qpos(atom), name=atom.name, res=_rid(res), fr=tr.frame_name(2),
+                        rc=type(res).__name__, hv=not _is_h(atom), rec=getattr(atom, "type", ""))
                 return r
             return add_atom
 
@@ -212,6 +222,34 @@ class Tracer:
         self._patch(cells.Cells, "assign_cells", mk_assign)
 
 
+    def _install_log(self):
+        import logging
+
+        tr = self
+
+        class H(logging.Handler):
+            def emit(self, record):
+                try:
+                    msg = record.getMessage()
+                except Exception:
+                    msg = str(record.msg)
+                tr.emit(e="log", level=record.levelname, msg=msg[:300], logger=record.name)
+        h = H(level=logging.WARNING)
+        root = logging.getLogger("pdb2pqr")
+        self._log_state = (root.level, logging.root.manager.disable)
+        logging.disable(logging.NOTSET)
+        root.setLevel(logging.WARNING)
+        root.addHandler(h)
+
+        class Undo:
+            pass
+
+        def undo():
+            root.removeHandler(h)
+            root.setLevel(self._log_state[0])
+            logging.disable(logging.CRITICAL)
+        self._extra_undo = getattr(self, "_extra_undo", []) + [undo]
+
     # ------------------------------------------------------------------ pipeline stages
     STAGES = [
         # (stage, module, class or None, attribute)
@@ -276,6 +314,7 @@ class Tracer:
                     tr.depth += 1
                     try:
                         if not nested:
+                            tr.cur_stage = stage
                             tr.stage_event(stage, attr, "enter")
                             if tr.fault and tr.fault[0] == stage and tr.fault[1] == "entry" and tr.fault[3] == n:
                                 tr.fault_fired = True
@@ -289,6 +328,10 @@ class Tracer:
                         if stage == "SetupMolecule" and isinstance(r, tuple):
                             tr.bio = r[0]
                             tr.input_heavy = [x for x in tr.bio.atoms if not x.is_hydrogen]
+                        if stage == "ApplyFF" and isinstance(r, tuple) and len(r) == 2:
+                            tr.ff_lists = r            # (matched, missing): the ligand loop extends these objects
+                        if stage == "RenderLines" and getattr(tr, "rendered", None) is None and a:
+                            tr.rendered = list(a[0])
                         if not nested:
                             if tr.fault and tr.fault[0] == stage and tr.fault[1] == "exit" and tr.fault[3] == n:
                                 tr.fault_fired = True
@@ -298,6 +341,8 @@ class Tracer:
                         return r
                     finally:
                         tr.depth -= 1
+                        if not nested:
+                            tr.cur_stage = ""
                 return wrapper
             return make
 
@@ -362,6 +407,13 @@ class Tracer:
 
 
 _MISSING = object()
+
+
+def _is_h(atom):
+    try:
+        return bool(atom.is_hydrogen)
+    except Exception:
+        return str(getattr(atom, "name", "")).startswith("H")
 
 
 def _rid(res):
